@@ -173,7 +173,10 @@ func (b *broker) PreInitEventHistoryTopics(evntCfgs []*TopicEventHistoryConfig) 
 //
 // The Subscriber can detect the delivery of that same event on multiple
 // subscriptions via EVENT.PUBLISHED.Publication, which will be identical.
-func (b *broker) publish(pub *wamp.Session, msg *wamp.Publish) {
+//
+// An error is returned if the publisher violated the protocol. The caller must
+// then end the publisher's session.
+func (b *broker) publish(pub *wamp.Session, msg *wamp.Publish) error {
 	if pub == nil || msg == nil {
 		panic("broker.Publish with nil session or message")
 	}
@@ -185,7 +188,7 @@ func (b *broker) publish(pub *wamp.Session, msg *wamp.Publish) {
 
 	if !msg.Topic.ValidURI(b.strictURI, "") {
 		if !pubAck {
-			return
+			return nil
 		}
 		errMsg := fmt.Sprintf(
 			"publish with invalid topic URI %v (URI strict checking %v)",
@@ -198,7 +201,7 @@ func (b *broker) publish(pub *wamp.Session, msg *wamp.Publish) {
 			Arguments: wamp.List{errMsg},
 			Details:   wamp.Dict{},
 		})
-		return
+		return nil
 	}
 
 	details := wamp.Dict{}
@@ -209,14 +212,14 @@ func (b *broker) publish(pub *wamp.Session, msg *wamp.Publish) {
 
 		// Let's check: was ppt feature announced by publisher?
 		if !pub.HasFeature(wamp.RolePublisher, wamp.FeaturePayloadPassthruMode) {
-			// It's protocol violation, so we need to abort connection.
+			// It's protocol violation, so we need to abort connection. The
+			// session is ended by its message handler; closing the peer here
+			// would leave the session in the realm with a closed peer.
 			abortMsg := wamp.Abort{Reason: wamp.ErrProtocolViolation}
 			abortMsg.Details = wamp.Dict{}
 			abortMsg.Details[wamp.OptMessage] = ErrPPTNotSupportedByPeer.Error()
 			b.trySend(pub, &abortMsg)
-			pub.Close()
-
-			return
+			return fmt.Errorf("%w: %w", errSessionAborted, ErrPPTNotSupportedByPeer)
 		}
 
 		// Every side supports PPT feature. Fill PPT options for callee.
@@ -254,7 +257,7 @@ func (b *broker) publish(pub *wamp.Session, msg *wamp.Publish) {
 			}
 			// When the publisher requested disclosure, but it isn't allowed,
 			// don't continue to publish the message.
-			return
+			return nil
 		}
 		disclose = true
 	}
@@ -271,6 +274,7 @@ func (b *broker) publish(pub *wamp.Session, msg *wamp.Publish) {
 	if pubAck {
 		b.trySend(pub, &wamp.Published{Request: msg.Request, Publication: pubID})
 	}
+	return nil
 }
 
 // subscribe subscribes the client to the given topic.
